@@ -282,9 +282,31 @@ func (p *printer) subshell(x *ast.Subshell) {
 		p.newline()
 		p.indent()
 	} else {
+		if leadingParen(x.List[0]) {
+			// "((" would start an arithmetic evaluation
+			p.space()
+		}
 		p.command(x.List[0])
 	}
 	p.w.WriteByte(')')
+}
+
+// leadingParen reports whether the output of c begins with "(".
+func leadingParen(c ast.Command) bool {
+	switch c := c.(type) {
+	case ast.List:
+		return len(c) != 0 && leadingParen(c[0])
+	case *ast.AndOrList:
+		return leadingParen(c.Pipeline)
+	case *ast.Pipeline:
+		return c.Bang.IsZero() && leadingParen(c.Cmd)
+	case *ast.Cmd:
+		switch c.Expr.(type) {
+		case *ast.Subshell, *ast.ArithEval:
+			return true
+		}
+	}
+	return false
 }
 
 func (p *printer) group(x *ast.Group) {
@@ -637,6 +659,10 @@ func (p *printer) cmdSubst(w *ast.CmdSubst) {
 		p.newline()
 		p.indent()
 	} else {
+		if w.Dollar && leadingParen(w.List[0]) {
+			// "$((" would start an arithmetic expansion
+			p.space()
+		}
 		p.command(w.List[0])
 	}
 	if w.Dollar {
